@@ -83,7 +83,11 @@ type outcome struct {
 }
 
 // read reads reference modules with a library reader (rd == nil: a fresh one of the kind).
-func read(rd gozxing.Reader, kind string, mod []bool, scale int, path string) (o outcome) {
+func read(rd gozxing.Reader, kind string, mod []bool, scale int, path string, hints ...map[gozxing.DecodeHintType]interface{}) (o outcome) {
+	var h map[gozxing.DecodeHintType]interface{}
+	if len(hints) > 0 {
+		h = hints[0]
+	}
 	if rd == nil {
 		rd = newReader(kind)
 	}
@@ -95,9 +99,9 @@ func read(rd gozxing.Reader, kind string, mod []bool, scale int, path string) (o
 				o.err = e
 				return
 			}
-			res, o.err = rd.Decode(bmp, nil)
+			res, o.err = rd.Decode(bmp, h)
 		} else {
-			res, o.err = rd.(rowDecoder).DecodeRow(0, bitRow(mod, scale), nil)
+			res, o.err = rd.(rowDecoder).DecodeRow(0, bitRow(mod, scale), h)
 		}
 	})
 	if o.panicM == "" && o.err == nil && res != nil {
